@@ -242,6 +242,10 @@ def seq_at(I, v, i):
                 # out of range: an unconstrained value (only reachable under a false guard)
                 if isinstance(v, (bytes, bytearray)):
                     return SInt(I.path.fresh_int("oob"))
+                if isinstance(v, (list, tuple)) and v and not is_bytes_like(v[0]):
+                    # an element of a list of objects that is not there: the enclosing operand is undefined
+                    # (clauses guard such reads; ex_BoolOp turns it into an unconstrained truth value)
+                    I.raise_py(AttributeError, "undefined element in a clause")
                 return SBytes(z3.Const(I.path.fresh_name("oob"), S.SeqI), "str" if isinstance(v, str) else "bytes")
             I.raise_py(IndexError, "index out of range")
     if isinstance(v, (bytes, bytearray)):
@@ -808,6 +812,8 @@ def compare(I, op, a, b):
         f = I.class_lookup(a.cls, nm)
         if f is not None and not isinstance(f, type(object.__lt__)):
             return I.call(itp.BoundMethod(a, itp.unwrap_function(f), nm), [b], {})
+    if a is None or b is None:
+        I.raise_py(TypeError, "ordering comparison with None")
     raise Unsupported(f"ordering comparison of {type(a).__name__} and {type(b).__name__}")
 
 
@@ -1049,6 +1055,9 @@ def heap_get(I, ref, name):
         else:
             I.path.assume(z3.And(e >= 1, e < heap_limit(I)))
         return S.SRef(tcls, e, ref.heap)
+    if fty.kind == "int" and (fty.lo is not None or fty.hi is not None):
+        # declared range of the field: a type invariant of every object (writes are checked in heap_set)
+        I.path.assume(z3.And(*([e >= fty.lo] if fty.lo is not None else []), *([e <= fty.hi] if fty.hi is not None else [])))
     return wrap(fty, e)
 
 
@@ -1061,6 +1070,9 @@ def heap_set(I, ref, name, v):
     fty = decl[name]
     arr = heap_array(I, clsname, name, fty)
     val = z3.IntVal(0) if v is None else to_z3(v)
+    if fty.kind == "int" and (fty.lo is not None or fty.hi is not None):
+        I.path.prove(z3.And(*([val >= fty.lo] if fty.lo is not None else []), *([val <= fty.hi] if fty.hi is not None else [])),
+                     f"heap-field-range[{name}]", kind="model-side-condition")
     I.path.heap[(clsname, name)] = z3.Store(arr, ref.id, val)
 
 
